@@ -44,7 +44,13 @@ pub fn gen_project(g: &mut Gen, unique_names: bool) -> Project {
     let nw = 1 + g.rng.below(6);
     let mut words: Vec<String> = (0..nw).map(|_| if g.rng.chance(1, 7) { String::new() } else if g.rng.chance(1, 2) { g.small_word() } else { g.word() }).collect();
     if words.last().map_or(true, |w| w.is_empty()) { words.push(g.small_word()); }
-    let has_alias = g.rng.chance(1, 2);
+    // a project may hold no rule at all (groups that only carry a name and a description): the words still go through the library,
+    // which parses and re-renders them (typed spellings `'`, `:`, `g` come back canonical; a malformed word is an error)
+    let no_rules = g.rng.chance(1, 8);
+    if no_rules { for gr in groups.iter_mut() { gr.1.clear(); if gr.0.is_empty() && gr.2.is_empty() { gr.0 = "Stage".into(); } } }
+    if g.rng.chance(1, 3) { for w in words.iter_mut() { if g.rng.chance(1, 2) { *w = w.replace('ː', ":").replace('ˈ', "'").replace('ɡ', "g"); } } }
+    if g.rng.chance(1, 12) { let i = g.rng.below(words.len()); words[i] = format!("{}%a", words[i]); }
+    let has_alias = if no_rules { g.rng.chance(1, 4) } else { g.rng.chance(1, 2) };
     let (mut into, mut from) = (Vec::new(), Vec::new());
     if has_alias {
         for _ in 0..g.rng.below(3) { into.push(if g.rng.chance(1, 4) { ["@{acute} > [+stress]", "@{grave} > [+secstress]", "@{macron}a > a:[+long]"][g.rng.below(3)].to_string() } else { format!("{} > {}", ["§", "sh", "ñ", "x"][g.rng.below(4)], ["ʃ", "ɲ", "x", "a:[+long]"][g.rng.below(4)]) }); }
